@@ -35,6 +35,10 @@ def _worker_init():
   from . import world
   world.EIGSH.install()
   try:
+    world.pristine()       # forked now, before this worker has run anything
+  except Exception:
+    pass
+  try:
     faulthandler.enable()
   except Exception:
     pass
@@ -43,12 +47,63 @@ def _worker_init():
 
 
 def execute(pid, plan, keep_events=False):
-  """Run one plan; never raises (harness exceptions are classified)."""
+  """Run one plan in a process of its own (forked from this one) and return its
+  result; never raises.  One process per run means that nothing a run leaves
+  behind in module-level state (of the library under test, of its dependencies
+  or of the harness) can reach another run: a run stays a pure function of
+  (plan, code) even for code that keeps process-global caches or registries."""
+  if os.environ.get("MLSIM_NO_FORK"):
+    return _execute_here(pid, plan, keep_events)
+  import pickle
+  from . import world
+  try:
+    world.pristine()        # forked from this (history-free) process, shared by its run processes
+  except Exception:
+    pass
+  rfd, wfd = os.pipe()
+  child = os.fork()
+  if child == 0:
+    code = 0
+    try:
+      os.close(rfd)
+      res = _execute_here(pid, plan, keep_events)
+      world._write_all(wfd, pickle.dumps(res, protocol=4))
+    except BaseException:
+      code = 1
+    finally:
+      os._exit(code)
+  os.close(wfd)
+  chunks = []
+  while True:
+    try:
+      c = os.read(rfd, 1 << 20)
+    except InterruptedError:
+      continue
+    if not c:
+      break
+    chunks.append(c)
+  os.close(rfd)
+  try:
+    os.waitpid(child, 0)
+  except Exception:
+    pass
+  try:
+    return pickle.loads(b"".join(chunks))
+  except Exception:
+    return dict(harness_error="run process died without a result", violation=None, inconclusive=[],
+                cov={}, shape="", nontrivial=False, digest="", wall=0.0, digests=[])
+
+
+def _execute_here(pid, plan, keep_events=False):
   mod = prop_module(pid)
   from . import world
   world.EIGSH.install()
   world.EIGSH.mode = "seeded"
   world.EIGSH.seed = 12345
+  try:
+    world.pristine()        # must exist before the plan's history starts
+  except Exception:
+    pass
   import warnings
   warnings.simplefilter("ignore")   # oracles observe warnings explicitly
   t0 = time.time()
